@@ -1,31 +1,40 @@
 """
 C16 — `rdsquashfs --describe` output is valid `gensquashfs --pack-file` input rebuilding the tree.
 
-Proof: lean/Sqfs/Props/C16.lean over lean/Sqfs/Model/Quote.lean (repaired printer ∘ unchanged parser = identity,
-for all names/targets/locations without NUL/LF).  The printer of the pinned snapshot is modelled separately
-(lean/Sqfs/Model/QuoteOld.lean) and provably violates the property (lean/Sqfs/Witness/C16.lean, defect D13).
+Proof: lean/Sqfs/Props/C16.lean.  `Sqfs.Quote` models describe.c **as it is in /repo** (after 96e45c1) and the
+pack-file parser; printer ∘ parser = identity for all names/targets/locations without NUL/LF.  The property excludes LF
+from entry names only: for a symlink target or an --unpack-root with LF the printer in /repo prints a listing that
+does not rebuild the tree (lean/Sqfs/Witness/C16.lean, keys `LF:*`).  `Sqfs.QuoteLF` models describe.c with
+fixes/C16-describe-newline.patch (refuse, diagnose, exit non-zero); the `describe_newline_*` theorems are about it.
 
 Tie (every run, real code from the working tree under ASan+UBSan):
-  unit level — harness/h_c16.c (+ h_c16_desc.c): the real split_line / parse_uint / istream_get_line /
-    fstree_from_file_stream+handle_line (fstree_add_generic replaced by a recorder) and the real describe_tree on
-    nodes built in the harness, against `sqfsmodel c16`, byte for byte;
+  unit level — harness/h_c16.c (+ h_c16_desc.c): the real split_line / parse_uint / istream_get_line (memory stream
+    with small windows and the real 128 KiB file stream) / fstree_from_file_stream+handle_line (fstree_add_generic
+    replaced by a recorder), print_escaped, describe_tree on nodes and trees built in the harness, glibc
+    major/minor/makedev, against `sqfsmodel c16`, byte for byte;
+  fstree level — harness/h_c16_fs.c: the real fstree_from_file.c on top of the real lib/fstree; the in-memory tree
+    dumped node by node against `Sqfs.QuoteFs.buildFromFile`, and — on the real describe output of generated trees —
+    against the specification `normTree` (theorem rebuild_fstree_partial);
   tool level — gensquashfs → image A → rdsquashfs -d [-p R] + rdsquashfs -u / -p R → gensquashfs -F → image B;
     A and B compared entry by entry through rdsquashfs -s / -c / -l (stat.c, not describe.c).
 
-The real printer must equal the repaired model or the snapshot model on every input; where it equals the snapshot
-model and the round trip fails, the failure is defect D13 (key by input class, listed in known_findings.d/C16.json
-until the fix is committed); anything else is a fresh violation.
+The real printer must equal the model of /repo's printer on every input; on inputs where the patched model differs
+(a LF in a printed string) it may equal the patched model instead.  Where it prints a LF into the listing and the
+round trip fails, that is the open defect (keys `LF:target`, `LF:location`).  Anything else is a fresh violation.
+Every part of the check raises (infrastructure failure) when it evaluated nothing or lost its coverage.
 """
-import itertools, json, os, subprocess, hashlib
+import itertools, json, os, shutil, subprocess, hashlib
 import vlib
 
 LEVEL = "proof"
 MODULE = "Sqfs.Props.C16"
-REQUIRED = ["Sqfs.C16.split_print_roundtrip", "Sqfs.C16.handle_print_roundtrip", "Sqfs.C16.handle_print_roundtrip_line",
-            "Sqfs.C16.describe_roundtrip", "Sqfs.C16.split_never_fuel", "Sqfs.C16.split_dst_le_src", "Sqfs.C16.parse_print_dec",
+REQUIRED = ["Sqfs.C16.rebuild_fstree_partial", "Sqfs.C16.split_print_roundtrip", "Sqfs.C16.handle_print_roundtrip", "Sqfs.C16.handle_print_roundtrip_line",
+            "Sqfs.C16.describe_roundtrip", "Sqfs.C16.describe_newline_sound", "Sqfs.C16.describe_newline_refusal",
+            "Sqfs.C16.describe_newline_same", "Sqfs.C16.handle_print_newline_sound",
+            "Sqfs.C16.split_never_fuel", "Sqfs.C16.split_dst_le_src", "Sqfs.C16.parse_print_dec",
             "Sqfs.C16.parse_print_mode", "Sqfs.C16.device_number_roundtrip"]
 
-SP, TAB, DQ, BS, CR, HASH = 0x20, 0x09, 0x22, 0x5c, 0x0d, 0x23
+SP, TAB, DQ, BS, CR, HASH, LF = 0x20, 0x09, 0x22, 0x5c, 0x0d, 0x23, 0x0a
 CORE = [SP, TAB, DQ, BS, CR, HASH]
 EXTRA = [0x0b, 0x0c, 0x27, 0x80, 0xff, 0x2a, 0x01, 0x7f]
 KINDS = ["dir", "file", "slink", "chr", "blk", "fifo", "sock"]
@@ -42,44 +51,38 @@ def untok(t):
 
 
 # --------------------------------------------------------------------------------------------------------------
-# classification of a failing round trip by the input class that the snapshot printer gets wrong (D13)
+# helpers that fail loudly
 
-def old_name_cause(path):
-    quoted = (b" " in path) or (b'"' in path)
-    if quoted and b"\\" in path:
-        return "name:backslash"
-    if not quoted and b"\t" in path:
-        return "name:tab"
+def need(cond, what):
+    """an infrastructure condition of the check itself: never a pass when it does not hold"""
+    if not cond:
+        raise vlib.CheckFailure("C16 check infrastructure: " + what)
+
+
+def szip(*lists):
+    """zip() of streams that must have the same length"""
+    n = len(lists[0])
+    need(all(len(l) == n for l in lists), "streams of unequal length zipped: %s" % [len(l) for l in lists])
+    return zip(*lists)
+
+
+# --------------------------------------------------------------------------------------------------------------
+# classification of a failing round trip by the open defect: a LF printed into the listing
+
+def lf_cause(root, kind, comps, target):
+    """which string with a LF the printer in /repo writes into the line of this node (None: none).  A LF in an entry
+    *name* is outside the property's quantifier and never reaches this function."""
+    if kind == "slink" and b"\n" in target:
+        return "target"
+    if kind == "file" and root is not None and b"\n" in root:
+        return "location"
     return None
 
 
-def old_verbatim_cause(field, s):
-    if s == b"":
-        return field + ":empty"
-    if b" " in s or b"\t" in s:
-        return field + ":sep"
-    if s[:1] == b'"':
-        return field + ":leading-dquote"
-    if s[-1:] == b"\r":
-        return field + ":trailing-cr"
-    return None
-
-
-def d13_cause(root, kind, comps, target):
-    """first reason why the snapshot printer's line for this node does not decode to the node (None: it does)"""
-    if kind == "other":
-        return None
-    if not comps:
-        return "root-dir" if kind == "dir" else None
-    path = b"/".join(comps)
-    c = old_name_cause(path)
-    if c:
-        return c
-    if kind == "slink":
-        return old_verbatim_cause("target", target)
-    if kind == "file" and root is not None:
-        return old_verbatim_cause("location", root + b"/" + path)
-    return None
+def in_scope(comps):
+    """the property's quantifier: entry names an image can hold (non-empty, not "." / "..", no '/', at most 255 bytes)
+    without newline"""
+    return all(valid_name(c) for c in comps)
 
 
 # --------------------------------------------------------------------------------------------------------------
@@ -209,8 +212,37 @@ def gen_cases(ctx):
     # the root directory (its line carries the root's mode and owner)
     for p in PERMS:
         cases.append(Case(None, "dir", p, rng.choice(IDS), rng.choice(IDS), 0, b"", [], "rootdir"))
-    cases = [c for c in cases if all(b"\n" not in x and b"\0" not in x for x in c.comps)]
+    # names of 255 bytes (the longest an image can hold) made of quoting-relevant bytes, long targets and roots
+    for j in range(6 if ctx.quick() else 60):
+        n1 = bytes(rng.choice([SP, TAB, DQ, BS, CR, HASH, 0x61, 0x80]) for _ in range(255))
+        n2 = bytes(rng.choice(b"abc.-") for _ in range(255))
+        n2 = n2 if valid_name(n2) else b"x" * 255
+        for k in ("file", "dir", "slink"):
+            cases.append(Case(rng.choice([None, b"r" * 300 + b" s"]), k, 0o644, 1, 2, 0, random_string(rng, 6000, slash=True), [n2, n1, n2][:1 + j % 3], "long"))
+    # line feeds: in a symlink target and in --unpack-root (inside the property: only *names* are LF-free), and in
+    # names (outside the property; the printer must still be the modelled one)
+    lfs = lf_strings(rng, 12 if ctx.quick() else 400)
+    for s in lfs:
+        cases.append(Case(None, "slink", 0o777, rng.choice(IDS), 0, 0, s, [b"l"], "lf-target"))
+        cases.append(Case(s, "file", 0o644, 0, rng.choice(IDS), 0, b"", [b"d", b"f"], "lf-root"))
+        cases.append(Case(s, "dir", 0o755, 0, 0, 0, b"", [b"d"], "lf-root-unused"))
+        cases.append(Case(None, "file", 0o644, 0, 0, 0, s, [b"f"], "lf-target-unused"))
+        nm = s.replace(b"/", b"_")
+        for k in KINDS + ["other"]:
+            cases.append(Case(None, k, 0o755, 0, 0, 0, b"t", [nm] if len(nm) % 2 else [nm, b"x"], "lf-name"))
+    cases = [c for c in cases if all(b"\0" not in x for x in c.comps)]
     return cases, len(strings), nexh, nrand, ncorpus
+
+
+def lf_strings(rng, nrand):
+    out = [b"a\nb", b"a\n", b"\n", b"\na", b"a\n#b", b"a\n\nb", b"a b\nc", b"a\r\n", b"a\n\r", b"\"\n\"", b"a\\\nb", b"a\n b",
+           b"t\npipe p 0644 0 0", b"t\n\tx", b"u/\n/v", b"\n\n"]
+    for _ in range(nrand):
+        s = bytearray(random_string(rng, 16, slash=True))
+        for _ in range(rng.randint(1, 2)):
+            s.insert(rng.randint(0, len(s)), LF)
+        out.append(bytes(s))
+    return out
 
 
 def gen_split_lines(ctx):
@@ -387,10 +419,13 @@ class Pair:
     def __init__(self, ctx, harness):
         self.ctx, self.harness = ctx, harness
         self.evals = 0
+        self.wd = ctx.scratch / "hwd"          # cwd of the harness (the `parsef` op writes its file there)
+        self.wd.mkdir(exist_ok=True)
 
     def impl(self, lines):
+        need(len(lines) > 0, "empty script for the harness")
         text = "\n".join(lines) + "\n"
-        r = vlib.sh([str(self.harness)], input=text, env=self.ctx.san_env(), timeout=3600)
+        r = vlib.sh([str(self.harness)], input=text, env=self.ctx.san_env(), timeout=3600, cwd=str(self.wd))
         out = r.stdout.split("\n")
         if out and out[-1] == "":
             out.pop()
@@ -401,7 +436,10 @@ class Pair:
         return out, None
 
     def model(self, lines):
-        return self.ctx.driver(["c16"], "\n".join(lines) + "\n", timeout=3600)
+        need(len(lines) > 0, "empty script for the model driver")
+        out = self.ctx.driver(["c16"], "\n".join(lines) + "\n", timeout=3600)       # raises on a non-zero exit status
+        need(len(out) == len(lines), "model driver answered %d lines to %d operations" % (len(out), len(lines)))
+        return out
 
 
 def capped(ctx, caps, cat, key, what, replay, found_input, limit=5):
@@ -411,69 +449,156 @@ def capped(ctx, caps, cat, key, what, replay, found_input, limit=5):
         ctx.violation(key, what, replay, found_input)
 
 
-def norm_err(l):
-    return "err" if l.startswith("err") else l
-
-
 def report_crash(ctx, lines, crash, what):
     k, rc, err = crash
     ctx.violation("crash:" + vlib.sha(lines[k])[:16], "real code aborted (rc=%s) in %s on line %d: %s" % (rc, what, k, err[-600:]),
                   {"op": lines[k], "stderr": err})
 
 
+def printer_verdict(got, cur, fix, old):
+    """which model the real printer's answer equals: 'cur' (the printer in /repo; also when cur == fix), 'fix' (only
+    the printer with fixes/C16-describe-newline.patch), or None (neither; second component names a regression)"""
+    if got == cur:
+        return "cur", ""
+    if got == fix:
+        return "fix", ""
+    return None, (" — it equals the printer of the pinned snapshot (before 96e45c1): a regression of D13" if got == old else "")
+
+
 # --------------------------------------------------------------------------------------------------------------
 # unit level
 
+SEPS = [b",", b" \t", b" ", b",;", b"=", b"a", b"\"", b"\\"]
+
+
+def gen_long_packfiles(ctx):
+    """pack files whose lines straddle the 128 KiB buffer of the file stream (lib/sqfs/src/io/istream.c)"""
+    rng = ctx.rng
+    out = []
+    BUF = 131072
+    for variant in range(3 if ctx.quick() else 12):
+        lines = []
+        size = 0
+        # filler lines up to shortly before the boundary, then a line that crosses it, then a few more
+        while size < BUF - rng.randint(5, 400):
+            l = b"dir /" + bytes(rng.choice(b"abcdefgh") for _ in range(rng.randint(1, 200))) + b"%d 0755 0 0" % len(lines)
+            lines.append(l); size += len(l) + 1
+        cross = [b"slink /l%d 0777 1 2 \"" % variant + b"t \\\" \\\\" * rng.randint(20, 200) + b"\"",
+                 b"file \"/f " + b"x" * rng.randint(300, 900) + b"\" 0644 0 0 \"in put\"",
+                 b"nod /n%d 0600 0 0 c 4095 1048575" % variant + b" " * rng.randint(500, 1500)][variant % 3]
+        lines.append(cross)
+        if variant % 2:
+            lines.append(b"slink /long 0777 0 0 " + b"y" * (BUF + rng.randint(1, 5000)))     # one line longer than the buffer
+        lines.append(b"pipe /p 0644 0 0")
+        if variant % 4 == 3:
+            lines.append(b"slink /bad 0777 0 0 \"unterminated " + b"z" * 1000)
+        out.append(b"\n".join(lines) + (b"\n" if variant % 2 else b""))
+    return out
+
+
 def run_simple_ops(ctx, pair, stats):
-    """split / pos / num / parse: real code vs model"""
+    """split / splitsep / pos / num / esc / dev / mkdev / parse / parsef: real code vs model"""
+    rng = ctx.rng
     lines, nexh, nrand = gen_split_lines(ctx)
-    ops = []
+    ops = []            # (harness op, [model ops whose answers are acceptable])
     cdir = vlib.CORPUS / "C16"
     ncorpus = 0
     if cdir.exists():
         for p in sorted(cdir.glob("*.ops")):
             for l in p.read_text().splitlines():
-                if l.strip() and not l.startswith("#"):
-                    ops.append(l.strip()); ncorpus += 1
+                l = l.strip()
+                if l and not l.startswith("#") and l.split(" ", 1)[0] in ("split", "pos", "num", "parse", "splitsep", "possep", "dev", "mkdev"):
+                    ops.append((l, [l])); ncorpus += 1
     for s in lines:
-        ops.append("split " + tok(s))
+        ops.append(("split " + tok(s), None))
     for s in lines[::7]:
-        ops.append("pos " + tok(s))
+        ops.append(("pos " + tok(s), None))
+    nsep = 0
+    for i, s in enumerate(lines[::5]):
+        sep = SEPS[i % len(SEPS)]
+        if i % 3 == 0:
+            s = s.replace(b" ", sep[:1])
+        ops.append(("splitsep %s %s" % (tok(sep), tok(s)), None)); nsep += 1
+        if i % 4 == 0:
+            ops.append(("possep %s %s" % (tok(sep), tok(s)), None))
     nums = gen_numbers(ctx)
     for s in nums:
-        ops.append("num 8 4095 " + tok(s))
-        ops.append("num 10 4294967295 " + tok(s))
+        ops.append(("num 8 4095 " + tok(s), None))
+        ops.append(("num 10 4294967295 " + tok(s), None))
+    # print_escaped alone: short strings over the quoting alphabet + LF, and random strings
+    esc = [b""]
+    for n in range(1, 4 if ctx.quick() else 6):
+        for t in itertools.product([SP, TAB, DQ, BS, CR, LF, 0x61], repeat=n):
+            esc.append(bytes(t))
+    esc += [random_string(rng, 60, slash=True) for _ in range(300 if ctx.quick() else 5000)] + lf_strings(rng, 30 if ctx.quick() else 500)
+    for s in esc:
+        ops.append(("esc x " + tok(s), ["esc cur " + tok(s), "esc fix " + tok(s)]))
+    # glibc major/minor/makedev
+    devs = DEVS + [0xffffffffffffffff, 0xfffff00000000000, 0x00000ffffff00000, 1 << 32, (1 << 44) - 1] \
+        + [rng.getrandbits(32) for _ in range(300 if ctx.quick() else 5000)] + [rng.getrandbits(64) for _ in range(100 if ctx.quick() else 2000)]
+    for d in devs:
+        ops.append(("dev %d" % d, None))
+    mk = [(0, 0), (4095, 255), (4096, 256), (0xffffffff, 0xffffffff), (0xfff, 0xfffff), (0x1000, 0x100000)] \
+        + [(rng.getrandbits(rng.choice([8, 12, 20, 32])), rng.getrandbits(rng.choice([8, 20, 32]))) for _ in range(300 if ctx.quick() else 5000)]
+    for a, b in mk:
+        ops.append(("mkdev %d %d" % (a, b), None))
     files = gen_packfiles(ctx)
     for i, c in enumerate(files):
         o = [("1", 0, "1", 0), ("0", 7, "1", 0), ("1", 0, "0", 4294967295), ("0", 0, "0", 0)][i % 4 if i % 5 == 0 else 0]
-        ops.append("parse %s %d %s %d %s" % (o[0], o[1], o[2], o[3], tok(c)))
-    # corpus "desc" lines are answered by the harness without new/old distinction; skip them here
-    ops = [o for o in ops if not o.startswith("desc ") and not o.startswith("dtree ") and not o.startswith("expect ")]
-    impl, crash = pair.impl(ops)
+        ops.append(("parse %s %d %s %d %s" % (o[0], o[1], o[2], o[3], tok(c)), None))
+        if i % 10 == 0:
+            # the same content through the real file stream
+            ops.append(("parsef %s %d %s %d %s" % (o[0], o[1], o[2], o[3], tok(c)), ["parse %s %d %s %d %s" % (o[0], o[1], o[2], o[3], tok(c))]))
+    longs = gen_long_packfiles(ctx)
+    for c in longs:
+        ops.append(("parsef 1 0 1 0 " + tok(c), ["parse 1 0 1 0 " + tok(c)]))
+        ops.append(("parse 1 0 1 0 " + tok(c), None))
+    ops = [(o, m if m is not None else [o]) for o, m in ops]
+    impl, crash = pair.impl([o for o, _ in ops])
     if crash:
-        report_crash(ctx, ops, crash, "split/num/parse")
+        report_crash(ctx, [o for o, _ in ops], crash, "split/num/esc/dev/parse")
         return
-    model = pair.model(ops)
+    flat = [x for _, m in ops for x in m]
+    mout = pair.model(flat)
     bad = 0
     hist = {}
-    for o, a, b in zip(ops, impl, model):
-        if o.startswith("pos "):
-            b = " ".join(x.split(":")[0] for x in b.split(" "))
-            # the write cursor never overtakes the read cursor (checked on the model's trace of the same line)
+    pos = 0
+    esc_lf_printed = esc_lf_refused = 0
+    for (o, m), a in szip(ops, impl):
+        answers = mout[pos: pos + len(m)]
+        pos += len(m)
         kind = o.split(" ", 1)[0]
-        st = a.split(" ")[0] if kind != "parse" else a.rsplit("st=", 1)[-1]
+        if kind == "esc" and a == "nofn":
+            hist["esc:ok"] = hist.get("esc:ok", 0) + 1          # tie lost, already reported by build_harness
+            continue
+        if kind in ("pos", "possep"):
+            answers = [" ".join(x.split(":")[0] for x in b.split(" ")) for b in answers]
+        need(a != "bad-op" and "bad-op" not in answers, "operation not understood by harness or driver: %s" % o[:120])
+        st = a.split(" ")[0] if kind not in ("parse", "parsef") else a.rsplit("st=", 1)[-1]
+        if kind in ("dev", "mkdev"):
+            st = "ok"
         hist[kind + ":" + st] = hist.get(kind + ":" + st, 0) + 1
-        if a != b:
+        if kind == "esc" and answers[0] != answers[1]:
+            if a == answers[0]:
+                esc_lf_printed += 1
+            elif a == answers[1]:
+                esc_lf_refused += 1
+        if a not in answers:
             bad += 1
             if bad <= 5:
-                ctx.violation("corr:" + vlib.sha(o)[:16], "parser side: real code and model disagree on `%s`: impl=%s model=%s" % (o[:200], a[:300], b[:300]),
-                              {"op": o, "impl": a, "model": b, "correspondence": "harness/h_c16.c vs lean/Driver/C16.lean"}, found_input=False)
-    stats.update({"corpus_ops": ncorpus, "split_lines": len(lines), "split_exhaustive": nexh, "split_random": nrand,
-                  "num_strings": len(nums), "packfiles": len(files), "parser_branch_histogram": dict(sorted(hist.items())),
-                  "parser_disagreements": bad})
+                ctx.violation("corr:" + vlib.sha(o)[:16], "real code and model disagree on `%s`: impl=%s model=%s" % (o[:200], a[:300], " | ".join(answers)[:400]),
+                              {"op": o, "impl": a, "model": answers, "model_ops": m, "correspondence": "harness/h_c16.c vs lean/Driver/C16.lean"}, found_input=False)
+    need(pos == len(mout), "model answers left over")
+    for k in ("split:ok", "split:err", "splitsep:ok", "pos:ok", "possep:ok", "num:ok", "num:err", "esc:ok", "dev:ok", "mkdev:ok", "parse:ok", "parsef:ok"):
+        need(hist.get(k, 0) > 0, "no operation of class %s was evaluated" % k)
+    stats.update({"corpus_ops": ncorpus, "split_lines": len(lines), "split_exhaustive": nexh, "split_random": nrand, "splitsep_lines": nsep,
+                  "num_strings": len(nums), "esc_strings": len(esc), "esc_with_lf_printed": esc_lf_printed, "esc_with_lf_refused": esc_lf_refused,
+                  "dev_values": len(devs), "mkdev_pairs": len(mk), "packfiles": len(files), "long_packfiles_through_file_stream": len(longs),
+                  "parser_branch_histogram": dict(sorted(hist.items())), "parser_disagreements": bad})
 
 
 def check_cases(ctx, pair, cases, stats):
+    need(len(cases) > 0, "no describe cases generated")
     ops_i = ["desc x " + c.args() for c in cases]
     impl, crash = pair.impl(ops_i)
     if crash:
@@ -482,75 +607,93 @@ def check_cases(ctx, pair, cases, stats):
     ops_m = []
     for c in cases:
         a = c.args()
-        ops_m += ["desc new " + a, "desc old " + a, "expect " + a]
+        ops_m += ["desc cur " + a, "desc fix " + a, "desc old " + a, "expect " + a]
     model = pair.model(ops_m)
     # second pass: what the real parser (and its model) decode from the real printer's line
     idx = [i for i, l in enumerate(impl) if l.startswith("ok ")]
+    need(len(idx) > 0, "describe_tree printed no line at all")
     ops2 = ["parse 1 0 1 0 " + impl[i][3:] for i in idx]
     impl2, crash2 = pair.impl(ops2)
     if crash2:
         report_crash(ctx, ops2, crash2, "fstree_from_file_stream on describe output")
         return
     model2 = pair.model(ops2)
-    dec = {i: (a, b) for i, a, b in zip(idx, impl2, model2)}
-    n_new = n_old = n_both = n_fail = n_err = 0
+    dec = {i: (a, b) for i, a, b in szip(idx, impl2, model2)}
+    n_cur = n_fix = n_fail = n_err = n_lfname = n_lf_scope = n_rt = 0
     caps = {}
     nontrivial = set()
     known = {}
     samples = []
+    tags = {}
     for i, c in enumerate(cases):
-        got = norm_err(impl[i])
-        new, old, exp = norm_err(model[3 * i]), norm_err(model[3 * i + 1]), model[3 * i + 2]
-        rep = dict(c.as_dict(), impl=impl[i], model_new=model[3 * i], model_old=model[3 * i + 1], expect=exp)
-        matches = got in (new, old)
-        if got == new and got == old:
-            n_both += 1
-        elif got == new:
-            n_new += 1
-        elif got == old:
-            n_old += 1
-        if got == "err":
+        got = impl[i]
+        cur, fix, old, exp = model[4 * i: 4 * i + 4]
+        need("bad-op" not in (got, cur, fix, old, exp), "describe case not understood: %s" % c.args()[:160])
+        tags[c.tag] = tags.get(c.tag, 0) + 1
+        rep = dict(c.as_dict(), impl=got, model_cur=cur, model_fix=fix, expect=exp)
+        verdict, regress = printer_verdict(got, cur, fix, old)
+        if verdict == "cur":
+            n_cur += 1
+        elif verdict == "fix":
+            n_fix += 1
+        if not got.startswith("ok "):
             n_err += 1
-            if not matches:
+            if verdict is None:
                 capped(ctx, caps, "corr:desc", "corr:desc:" + vlib.sha(c.args())[:16],
-                       "describe_tree refuses a node that both printer models accept (or vice versa): %s" % json.dumps(rep)[:900],
-                       dict(rep, correspondence="harness/h_c16_desc.c vs Sqfs.Quote.describeNode / Sqfs.QuoteOld.describeNode"), False)
+                       "describe_tree refuses a node (or fails differently) where its model does not%s: %s" % (regress, json.dumps(rep)[:900]),
+                       dict(rep, correspondence="harness/h_c16_desc.c vs Sqfs.Quote.describeNode / Sqfs.QuoteLF.describeNode"), False)
             continue
         a, b = dec[i]
         rep.update(impl_decoded=a, model_decoded=b)
-        nontrivial.add(impl[i])
+        nontrivial.add(got)
         if a != b:
             capped(ctx, caps, "corr:parse", "corr:parse:" + vlib.sha(ops2[idx.index(i)])[:16],
                    "parser side disagrees with its model on a describe line: %s" % json.dumps(rep)[:900],
                    dict(rep, correspondence="fstree_from_file.c vs Sqfs.Quote.fstreeFromFile"), False)
+        if not in_scope(c.comps):
+            # a LF in an entry name: outside the property; only the printer/model tie above applies
+            n_lfname += 1
+            if verdict is None:
+                capped(ctx, caps, "corr:desc", "corr:desc:" + vlib.sha(c.args())[:16],
+                       "describe_tree output differs from its model (name with LF)%s: %s" % (regress, json.dumps(rep)[:900]), rep, False)
+            continue
+        n_rt += 1
         # the specification, evaluated on the implementation's behaviour: printer ∘ parser must yield the node
         if a != exp:
             n_fail += 1
-            cause = d13_cause(c.root, c.kind, c.comps, c.target) if (got == old and got != new) else None
-            key = "D13:" + cause if cause else "rt:" + vlib.sha(c.args())[:16]
-            what = ("describe line for %s is not decoded back to the node by the pack-file parser (class %s): line=%r decoded=%s expected=%s"
-                    % (c.as_dict(), cause or "unexpected", untok(impl[i][3:]), a, exp))
+            cause = lf_cause(c.root, c.kind, c.comps, c.target) if verdict == "cur" and cur != fix else None
+            key = "LF:" + cause if cause else "rt:" + vlib.sha(c.args())[:16]
+            what = ("describe line for %s is not decoded back to the node by the pack-file parser (%s%s): line=%r decoded=%s expected=%s"
+                    % (c.as_dict(), "a line feed in the " + cause + " is printed into the listing" if cause else "unexpected", regress,
+                       untok(got[3:]), a, exp))
             known[key if cause else "rt:*"] = known.get(key if cause else "rt:*", 0) + 1
             capped(ctx, caps, key if cause else "rt", key, what[:1200], dict(rep, cls=cause), True, limit=3 if cause else 5)
-        elif not matches:
+        elif verdict is None:
             # round trip holds but the printer is no longer the one the theorems are about
             capped(ctx, caps, "corr:desc", "corr:desc:" + vlib.sha(c.args())[:16],
-                   "describe_tree output matches neither the repaired nor the snapshot model of the printer: %s" % json.dumps(rep)[:900],
-                   dict(rep, correspondence="harness/h_c16_desc.c vs Sqfs.Quote.describeNode / Sqfs.QuoteOld.describeNode"), False)
+                   "describe_tree output differs from the model of the printer although it decodes to the node%s: %s" % (regress, json.dumps(rep)[:900]),
+                   dict(rep, correspondence="harness/h_c16_desc.c vs Sqfs.Quote.describeNode"), False)
+        if lf_cause(c.root, c.kind, c.comps, c.target):
+            n_lf_scope += 1
         if len(samples) < 6 and (i % 997 == 3):
-            samples.append({"case": c.as_dict(), "line": repr(untok(impl[i][3:])), "decoded": a})
-    stats.update({"desc_cases": len(cases), "printer_eq_both_models": n_both, "printer_eq_repaired_only": n_new,
-                  "printer_eq_snapshot_only": n_old, "desc_refused": n_err, "roundtrip_failures": n_fail,
+            samples.append({"case": c.as_dict(), "line": repr(untok(got[3:])), "decoded": a})
+    need(n_rt > 1000, "only %d describe lines went through the round trip" % n_rt)
+    for t in ("name", "target", "root", "num", "dev", "rootdir", "long", "lf-target", "lf-root", "lf-name", "dots"):
+        need(tags.get(t, 0) > 0, "no describe case of class %s" % t)
+    stats.update({"desc_cases": len(cases), "desc_case_classes": dict(sorted(tags.items())), "printer_eq_repo_model": n_cur,
+                  "printer_eq_patched_model_only": n_fix, "desc_refused": n_err, "roundtrips_checked": n_rt,
+                  "lines_with_lf_in_target_or_root_printed": n_lf_scope, "out_of_scope_names_tied_only": n_lfname, "roundtrip_failures": n_fail,
                   "roundtrip_failure_keys": dict(sorted(known.items())), "distinct_lines": len(nontrivial), "desc_samples": samples})
     return nontrivial
 
 
-def check_trees(ctx, pair, trees, stats, roots):
+def check_trees(ctx, pair, trees, stats, roots, min_rt):
+    need(len(trees) > 0, "no trees generated")
     ops_i, ops_m, meta = [], [], []
     for i, t in enumerate(trees):
         r = roots[i % len(roots)]
         ops_i.append(tree_line("x", r, t))
-        ops_m += [tree_line("new", r, t), tree_line("old", r, t)]
+        ops_m += [tree_line("cur", r, t), tree_line("fix", r, t), tree_line("old", r, t), tree_line("etree", r, t).replace("dtree etree ", "etree ", 1)]
         for comps, nd in tree_nodes(t):
             ops_m.append("expect " + Case(r, nd[1], nd[2], nd[3], nd[4], nd[5], nd[6], comps, "tree").args())
         meta.append(r)
@@ -559,50 +702,198 @@ def check_trees(ctx, pair, trees, stats, roots):
         report_crash(ctx, ops_i, crash, "describe_tree (trees)")
         return
     model = pair.model(ops_m)
-    ops2 = ["parse 1 0 1 0 " + l[3:] for l in impl if l.startswith("ok ")]
+    okidx = [i for i, l in enumerate(impl) if l.startswith("ok ")]
+    need(len(okidx) > 0, "describe_tree printed no tree at all")
+    ops2 = ["parse 1 0 1 0 " + impl[i][3:] for i in okidx]
     impl2, crash2 = pair.impl(ops2)
     if crash2:
         report_crash(ctx, ops2, crash2, "fstree_from_file_stream on describe output (trees)")
         return
     model2 = pair.model(ops2)
-    pos, j, fails = 0, 0, 0
+    dec = {i: (a, b) for i, a, b in szip(okidx, impl2, model2)}
+    pos, fails, n_rt, n_refused, n_named = 0, 0, 0, 0, 0
     caps = {}
     for i, t in enumerate(trees):
         r = meta[i]
         nn = len(t)
-        new, old = norm_err(model[pos]), norm_err(model[pos + 1])
-        exps = model[pos + 2: pos + 2 + nn]
-        pos += 2 + nn
-        got = norm_err(impl[i])
-        rep = {"tree": ops_i[i], "impl": impl[i], "model_new": new, "model_old": old}
-        if got not in (new, old):
-            capped(ctx, caps, "corr:dtree", "corr:dtree:" + vlib.sha(ops_i[i])[:16], "describe_tree on a tree matches neither printer model: %s" % json.dumps(rep)[:900],
+        cur, fix, old, etree = model[pos: pos + 4]
+        exps = model[pos + 4: pos + 4 + nn]
+        pos += 4 + nn
+        got = impl[i]
+        need("bad-op" not in (got, cur, fix, old, etree) and "bad-op" not in exps, "tree not understood: %s" % ops_i[i][:160])
+        rep = {"tree": ops_i[i], "impl": got, "model_cur": cur, "model_fix": fix}
+        verdict, regress = printer_verdict(got, cur, fix, old)
+        if verdict is None:
+            capped(ctx, caps, "corr:dtree", "corr:dtree:" + vlib.sha(ops_i[i])[:16], "describe_tree on a tree differs from its model%s: %s" % (regress, json.dumps(rep)[:900]),
                    rep, False)
-            if got.startswith("ok "):
-                j += 1
-            continue
+        named = t[0][7] != b""
+        n_named += named
         if not got.startswith("ok "):
+            n_refused += 1
             continue
-        a, b = impl2[j], model2[j]
-        j += 1
+        a, b = dec[i]
         if a != b:
-            capped(ctx, caps, "corr:parse", "corr:parse:" + vlib.sha(ops2[j - 1])[:16], "parser side disagrees with its model on describe output of a tree",
+            capped(ctx, caps, "corr:parse", "corr:parse:" + vlib.sha(ops_i[i])[:16], "parser side disagrees with its model on describe output of a tree",
                    dict(rep, impl_decoded=a, model_decoded=b), False)
+        if named or not all(in_scope(comps) for comps, _ in tree_nodes(t)):
+            continue
+        # the specification of the whole tree (`specTree`, the right-hand side of describe_roundtrip) must be the
+        # concatenation of the per-node specifications the unit cases use
         ents = [e.split(" ", 2)[2].rsplit(" st=", 1)[0] for e in exps if e.startswith("ents 1 ")]
         want = "ents %d%s st=ok" % (len(ents), "".join(" " + e for e in ents))
+        need(etree == want, "specTree and the per-node specEntry disagree on %s" % ops_i[i][:200])
+        n_rt += 1
         if a != want:
             fails += 1
             cause = None
-            if got == old and got != new:
+            if verdict == "cur" and cur != fix:
                 for comps, nd in tree_nodes(t):
-                    cause = d13_cause(r, nd[1], comps, nd[6])
+                    cause = lf_cause(r, nd[1], comps, nd[6])
                     if cause:
                         break
-            key = "D13:" + cause if cause else "rt:tree:" + vlib.sha(ops_i[i])[:16]
+            key = "LF:" + cause if cause else "rt:tree:" + vlib.sha(ops_i[i])[:16]
             capped(ctx, caps, key if cause else "rt:tree", key,
-                   "describe output of a tree is not decoded back to its nodes (class %s): decoded=%s expected=%s" % (cause or "unexpected", a[:400], want[:400]),
+                   "describe output of a tree is not decoded back to its nodes (%s%s): decoded=%s expected=%s"
+                   % ("a line feed in a " + cause + " is printed into the listing" if cause else "unexpected", regress, a[:400], want[:400]),
                    dict(rep, decoded=a, expected=want, cls=cause), True, limit=2 if cause else 5)
-    stats.update({"trees": len(trees), "tree_nodes": sum(len(t) for t in trees), "tree_roundtrip_failures": fails})
+    need(pos == len(model), "model answers left over (trees)")
+    need(n_rt >= min_rt, "only %d of %d trees went through the round trip (at least %d expected)" % (n_rt, len(trees), min_rt))
+    stats.update({"trees": len(trees), "tree_nodes": sum(len(t) for t in trees), "trees_roundtripped": n_rt, "trees_refused": n_refused,
+                  "trees_with_named_root": n_named, "tree_roundtrip_failures": fails})
+
+
+def special_trees(ctx):
+    """trees the random generator does not produce: a parentless node with a name (all kinds), LF in targets"""
+    out = []
+    for k in KINDS + ["other"]:
+        for nm in (b"x", b".", b"..", b"a/b", b"r t"):
+            out.append([(0, k, 0o755, 0, 0, 0, b"t", nm)])
+            out.append([(0, k, 0o755, 0, 0, 0, b"t", nm), (1, "file", 0o644, 0, 0, 0, b"", b"f")])
+    root = (0, "dir", 0o755, 0, 0, 0, b"", b"")
+    for tgt in lf_strings(ctx.rng, 4):
+        out.append([root, (1, "dir", 0o700, 1, 2, 0, b"", b"d"), (2, "slink", 0o777, 0, 0, 0, tgt, b"l"), (1, "file", 0o644, 0, 0, 0, b"", b"z")])
+    # a nameless directory below the root prints nothing itself, its children fail in sqfs_tree_node_get_path
+    out.append([root, (1, "dir", 0o755, 0, 0, 0, b"", b""), (2, "file", 0o644, 0, 0, 0, b"", b"f")])
+    out.append([root, (1, "dir", 0o755, 0, 0, 0, b"", b"")])
+    out.append([root, (1, "other", 0, 0, 0, 0, b"", b"o"), (1, "sock", 0o600, 0, 0, 0, b"", b"s")])
+    return out
+
+
+# --------------------------------------------------------------------------------------------------------------
+# the tree in gensquashfs' memory (real lib/fstree below the real fstree_from_file.c)
+
+FS_NAMES = [b"a", b"b", b"c c", b"d\"", b"e\\", b"z", b"a"]
+
+
+def gen_fs_packfiles(ctx):
+    """pack files over a small set of names, so that implicit directories, their later definition, duplicates, files
+    used as directories and the root line all occur"""
+    rng = ctx.rng
+    out = []
+    for _ in range(400 if ctx.quick() else 8000):
+        lines = []
+        for _ in range(rng.randint(1, 12)):
+            kw = rng.choice([b"dir", b"dir", b"file", b"slink", b"nod", b"pipe", b"sock", b"link"])
+            comps = [rng.choice(FS_NAMES) for _ in range(rng.randint(1, 4))]
+            path = rng.choice([b"/", b"", b"//", b"./"]) + rng.choice([b"/", b"/", b"//"]).join(comps) + rng.choice([b"", b"", b"/"])
+            if rng.random() < 0.06:
+                path = b"/"
+            parts = [kw, q(path) if rng.random() < 0.7 or any(c in path for c in b' "\\') else path,
+                     b"0%o" % rng.choice(PERMS), b"%d" % rng.choice(IDS), b"%d" % rng.choice(IDS)]
+            if kw == b"slink" or kw == b"link":
+                parts.append(rng.choice([b"t", b"\"a b\"", b"/x"]))
+            elif kw == b"nod":
+                parts += [rng.choice([b"c", b"b"]), b"%d" % rng.choice([0, 5, 4095, 4096, 4294967295]), b"%d" % rng.choice([0, 1, 255, 1048575, 4294967295])]
+            elif kw == b"file" and rng.random() < 0.5:
+                parts.append(rng.choice([b"loc", b"\"in put\""]))
+            lines.append(b" ".join(parts))
+        out.append(b"\n".join(lines) + b"\n")
+    return out
+
+
+def build_fs_harness(ctx):
+    lib = ctx.build_lib()
+    return ctx.cc("h_c16_fs", ["h_c16_fs.c"], libs=[str(lib)] + vlib.CODEC_LIBS)
+
+
+def check_fs(ctx, pair, stats):
+    """`Sqfs.QuoteFs.buildFromFile` against fstree_from_file_stream on the real lib/fstree; on the real describe output of
+    generated trees also against the specification `normTree` (the right-hand side of rebuild_fstree_partial)"""
+    pfs = Pair(ctx, build_fs_harness(ctx))
+    rng = ctx.rng
+
+    def defaults():
+        return "%d %d %d %d" % (rng.choice(IDS), rng.choice(IDS), rng.choice([0o755, 0o700, 0, 0o7777, 0o177777]), rng.choice([0, 1, 1234567890, 4294967295]))
+
+    ops = []
+    files = gen_fs_packfiles(ctx) + gen_packfiles(ctx)[::3]
+    cdir = vlib.CORPUS / "C16"
+    for p in sorted(cdir.glob("*.ops")):
+        for l in p.read_text().splitlines():
+            if l.startswith("parse "):
+                files.append(untok(l.split(" ")[5]))
+    for i, c in enumerate(files):
+        o = [("1", 0, "1", 0), ("0", 7, "1", 0), ("1", 0, "0", 4294967295)][i % 3 if i % 7 == 0 else 0]
+        ops.append("fsbuild %s %d %s %d %s %s" % (o[0], o[1], o[2], o[3], defaults(), tok(c)))
+    impl, crash = pfs.impl(ops)
+    if crash:
+        report_crash(ctx, ops, crash, "fstree_from_file_stream on the real fstree")
+        return
+    model = pair.model(ops)
+    hist, bad = {}, 0
+    for o, a, b in szip(ops, impl, model):
+        need(a != "bad-op" and b != "bad-op", "fsbuild not understood: %s" % o[:120])
+        st = a.rsplit("st=", 1)[-1]
+        hist[st] = hist.get(st, 0) + 1
+        if a != b:
+            bad += 1
+            if bad <= 5:
+                ctx.violation("corr:fs:" + vlib.sha(o)[:16], "lib/fstree and its model disagree on `%s`: impl=%s model=%s" % (o[:200], a[:400], b[:400]),
+                              {"op": o, "impl": a, "model": b, "correspondence": "harness/h_c16_fs.c vs Sqfs.QuoteFs.buildFromFile"}, found_input=False)
+    for k in ("ok", "fs:exist", "fs:notdir", "fs:range"):
+        need(hist.get(k, 0) > 0, "no pack file ended in status %s on the real fstree" % k)
+    # real describe output of generated trees → real fstree, against the model and against the specification
+    trees = gen_trees(ctx, 80 if ctx.quick() else 3000, maxnodes=30)
+    # links with permission bits other than 0777 (a foreign image can hold them; `mknode` normalises them)
+    trees = [[(n[0], n[1], rng.choice(PERMS)) + tuple(n[3:]) if n[1] == "slink" and rng.random() < 0.5 else tuple(n) for n in t] for t in trees]
+    roots = [None, b"R", b"r s", b"/abs/\"q\"", None]
+    dops = [tree_line("x", roots[i % len(roots)], t) for i, t in enumerate(trees)]
+    dimpl, crash = pair.impl(dops)
+    if crash:
+        report_crash(ctx, dops, crash, "describe_tree (trees for the fstree step)")
+        return
+    ops2, mops2, meta = [], [], []
+    for i, (t, l) in enumerate(szip(trees, dimpl)):
+        if not l.startswith("ok "):
+            continue
+        dflt = defaults()
+        ops2.append("fsbuild 1 0 1 0 %s %s" % (dflt, l[3:]))
+        mops2 += [ops2[-1], tree_line("ntree", roots[i % len(roots)], t).replace("dtree ntree ", "ntree %s " % dflt, 1)]
+        meta.append(i)
+    need(len(ops2) * 10 >= len(trees) * 9, "describe_tree printed only %d of %d trees" % (len(ops2), len(trees)))
+    impl2, crash = pfs.impl(ops2)
+    if crash:
+        report_crash(ctx, ops2, crash, "fstree_from_file_stream on describe output")
+        return
+    model2 = pair.model(mops2)
+    nspec = nodes = 0
+    caps = {}
+    for k, (o, a) in enumerate(szip(ops2, impl2)):
+        b, spec = model2[2 * k], model2[2 * k + 1]
+        need("bad-op" not in (a, b, spec), "fsbuild/ntree not understood: %s" % o[:120])
+        if a != b:
+            capped(ctx, caps, "corr:fs", "corr:fs:" + vlib.sha(o)[:16], "lib/fstree and its model disagree on the describe output of a tree: impl=%s model=%s" % (a[:400], b[:400]),
+                   {"op": o, "impl": a, "model": b, "correspondence": "harness/h_c16_fs.c vs Sqfs.QuoteFs.buildFromFile"}, False)
+        # the specification on the implementation's behaviour: the rebuilt in-memory tree is normTree of the original
+        nspec += 1
+        nodes += int(a.split(" ")[1])
+        if a != spec:
+            capped(ctx, caps, "rt:fs", "rt:fs:" + vlib.sha(o)[:16],
+                   "the tree gensquashfs builds from the describe output is not the original tree: built=%s expected=%s" % (a[:500], spec[:500]),
+                   {"tree": dops[meta[k]], "op": o, "built": a, "expected": spec}, True)
+    stats.update({"fs_packfiles": len(files), "fs_status_histogram": dict(sorted(hist.items())), "fs_disagreements": bad,
+                  "fs_trees_rebuilt_and_compared_with_normTree": nspec, "fs_nodes_rebuilt": nodes})
+    pair.evals += pfs.evals
 
 
 # --------------------------------------------------------------------------------------------------------------
@@ -618,8 +909,14 @@ def stat_of(ctx, rd, img, path):
     if r.returncode != 0:
         return ("ERR", r.returncode, r.stderr[-300:])
     keep = {}
-    for l in r.stdout.split(b"\n"):
-        for k in (b"Inode type: ", b"Access: ", b"UID: ", b"GID: ", b"Link target: ", b"Device number: "):
+    out = r.stdout
+    lt = out.find(b"\nLink target: ")
+    if lt >= 0:
+        # the last field of the output; the target may itself contain line feeds
+        keep[b"Link target: "] = out[lt + 14:][:-1]
+        out = out[:lt + 1]
+    for l in out.split(b"\n"):
+        for k in (b"Inode type: ", b"Access: ", b"UID: ", b"GID: ", b"Device number: "):
             if l.startswith(k):
                 v = l[len(k):]
                 if k in (b"UID: ", b"GID: "):
@@ -627,17 +924,19 @@ def stat_of(ctx, rd, img, path):
                 if k == b"Inode type: ":
                     v = v.replace(b"extended ", b"")
                 keep[k] = v
+    need(b"Inode type: " in keep, "rdsquashfs -s output not understood: %r" % r.stdout[:200])
     return tuple(sorted(keep.items()))
 
 
 def tool_roundtrip(ctx, tools, tree, root, files, wd, idx):
-    """returns (status, detail, describe_output_bytes)"""
+    """returns (status, detail, describe_output_bytes); status ∈ ok | fail | infra"""
     gen, rd = tools
     env = ctx.san_env()
     d = wd / ("t%d" % idx)
     (d / "in").mkdir(parents=True)
     nodes = tree_nodes(tree)
     lines = []
+    no_slink = False
     for comps, nd in nodes:
         _, kind, perm, uid, gid, devno, target, _ = nd
         path = b"/" + b"/".join(comps)
@@ -650,6 +949,8 @@ def tool_roundtrip(ctx, tools, tree, root, files, wd, idx):
             lines.append(b"file " + base + b" " + fn.encode())
         elif kind == "slink":
             lines.append(b"slink " + base + b" " + q(target))
+            # the host cannot create an empty or over-long link: unpack without symbolic links (only the files are needed)
+            no_slink = no_slink or target == b"" or len(target) > 4000 or len(path) > 3500
         elif kind in ("chr", "blk"):
             maj = ((devno >> 8) & 0xfff)
             mnr = (devno & 0xff) | ((devno >> 12) & 0xfff00)
@@ -662,7 +963,9 @@ def tool_roundtrip(ctx, tools, tree, root, files, wd, idx):
     A, B = d / "a.sqfs", d / "b.sqfs"
     r = vlib.sh([str(gen), "-q", "-F", str(d / "pack.txt"), "-D", str(d / "in"), str(A)], env=env, timeout=900, text=False)
     if r.returncode != 0:
-        return "skip", "gensquashfs refused the generated pack file: %r" % r.stderr[-200:], b""
+        # the generated pack file is valid by construction (quoting written independently of the model): the pipeline
+        # of the property cannot even start
+        return "fail", "gensquashfs refused the generated (valid) pack file (%d): %r" % (r.returncode, r.stderr[-300:]), b""
     dargs = [str(rd), "-d"] + (["-p", os.fsdecode(root)] if root is not None else []) + [str(A)]
     r = vlib.sh(dargs, env=env, timeout=900, text=False, cwd=str(d))
     if r.returncode != 0:
@@ -670,9 +973,11 @@ def tool_roundtrip(ctx, tools, tree, root, files, wd, idx):
     listing = r.stdout
     (d / "list.txt").write_bytes(listing)
     uroot = os.fsdecode(root) if root is not None else "unpacked"
-    r = vlib.sh([str(rd), "-q", "-D", "-S", "-F", "-u", "/", "-p", uroot, str(A)], env=env, timeout=900, text=False, cwd=str(d))
+    if uroot.startswith("a/../"):
+        (d / "a").mkdir(exist_ok=True)
+    r = vlib.sh([str(rd), "-q", "-D", "-S", "-F"] + (["-L"] if no_slink else []) + ["-u", "/", "-p", uroot, str(A)], env=env, timeout=900, text=False, cwd=str(d))
     if r.returncode != 0:
-        return "skip", "rdsquashfs -u failed (%d): %r" % (r.returncode, r.stderr[-300:]), listing
+        return "fail", "rdsquashfs -u / -p %r failed (%d): %r" % (uroot, r.returncode, r.stderr[-300:]), listing
     gargs = [str(gen), "-q", "-F", "list.txt"] + ([] if root is not None else ["-D", uroot]) + [str(B)]
     r = vlib.sh(gargs, env=env, timeout=900, text=False, cwd=str(d))
     if r.returncode != 0:
@@ -691,9 +996,89 @@ def tool_roundtrip(ctx, tools, tree, root, files, wd, idx):
         if nd[1] == "dir":
             la = vlib.sh([str(rd), "-l", path, str(A)], env=env, timeout=600, text=False)
             lb = vlib.sh([str(rd), "-l", path, str(B)], env=env, timeout=600, text=False)
-            if la.returncode != 0 or lb.returncode != 0 or la.stdout.count(b"\n") != lb.stdout.count(b"\n"):
-                return "fail", "directory %r has a different number of entries" % path, listing
+            if la.returncode != 0 or lb.returncode != 0 or la.stdout != lb.stdout:
+                return "fail", "directory %r lists differently: original %r rebuilt %r" % (path, la.stdout[-300:], lb.stdout[-300:]), listing
+    shutil.rmtree(str(d), ignore_errors=True)
     return "ok", "", listing
+
+
+LF_TOOL_CASES = [("target", b"a\nb", None), ("target", b"a\n#b", None), ("target", b"a b\nc", None), ("location", b"t", b"u\np"),
+                 ("location", b"t", b"u\n#")]
+
+
+def tool_lf_case(ctx, tools, wd, idx, case):
+    """An image with a LF in a symlink target (built by scanning a host directory: a pack file cannot express it) or
+    an --unpack-root with a LF.  returns (status, detail): refused (diagnostic + non-zero exit) | fail | infra"""
+    which, target, root = case
+    gen, rd = tools
+    env = ctx.san_env()
+    d = wd / ("lf%d" % idx)
+    (d / "in" / "sub").mkdir(parents=True)
+    os.symlink(target, str(d / "in" / "l"))
+    (d / "in" / "f").write_bytes(b"payload")
+    (d / "in" / "sub" / "g h").write_bytes(b"x" * 300)
+    A, B = d / "a.sqfs", d / "b.sqfs"
+    r = vlib.sh([str(gen), "-q", "-D", str(d / "in"), str(A)], env=env, timeout=900, text=False)
+    need(r.returncode == 0, "gensquashfs --pack-dir failed on the LF test directory: %r" % r.stderr[-300:])
+    sa = stat_of(ctx, rd, A, b"/l")
+    need(sa[0] != "ERR" and any(target in v for _, v in sa), "the LF test image does not hold the link target: %r" % (sa,))
+    dargs = [str(rd), "-d"] + (["-p", os.fsdecode(root)] if root is not None else []) + [str(A)]
+    r = vlib.sh(dargs, env=env, timeout=900, text=False, cwd=str(d))
+    if r.returncode != 0:
+        if r.returncode in (98, 99) or b"line feed" not in r.stderr:
+            return "fail", "rdsquashfs -d failed (%d) without the diagnostic for a line feed: %r" % (r.returncode, r.stderr[-300:])
+        return "refused", r.stderr[-200:].decode("latin-1")
+    listing = r.stdout
+    (d / "list.txt").write_bytes(listing)
+    uroot = os.fsdecode(root) if root is not None else "unpacked"
+    r = vlib.sh([str(rd), "-q", "-L", "-u", "/", "-p", uroot, str(A)], env=env, timeout=900, text=False, cwd=str(d))
+    if r.returncode != 0:
+        return "fail", "rdsquashfs -u failed (%d): %r" % (r.returncode, r.stderr[-300:])
+    gargs = [str(gen), "-q", "-F", "list.txt"] + ([] if root is not None else ["-D", uroot]) + [str(B)]
+    r = vlib.sh(gargs, env=env, timeout=900, text=False, cwd=str(d))
+    if r.returncode != 0:
+        return "fail", "`rdsquashfs -d` printed a listing without complaint, `gensquashfs -F` rejects it (%d): %r; listing %r" % (
+            r.returncode, r.stderr[-200:], listing[:300])
+    for path in (b"/l", b"/f", b"/sub/g h"):
+        sa, sb = stat_of(ctx, rd, A, path), stat_of(ctx, rd, B, path)
+        if sa != sb:
+            return "fail", "`rdsquashfs -d` printed a listing without complaint, it is accepted, and entry %r of the rebuilt image differs: original %r rebuilt %r" % (path, sa, sb)
+        if path != b"/l":
+            ca = vlib.sh([str(rd), "-c", path, str(A)], env=env, timeout=600, text=False)
+            cb = vlib.sh([str(rd), "-c", path, str(B)], env=env, timeout=600, text=False)
+            if ca.returncode != 0 or cb.returncode != 0 or ca.stdout != cb.stdout:
+                return "fail", "`rdsquashfs -d` printed a listing without complaint, it is accepted, and the contents of %r differ" % path
+    return "fail", "a listing with a line feed in a field was printed and rebuilt the same tree: the pack-file format cannot do that — the check is wrong"
+
+
+def gen_roots(ctx, names, count):
+    """--unpack-root values: fixed quoting cases, then generated relative paths with quoting-relevant components,
+    `./`, `..`, doubled and trailing slashes, and an absolute path"""
+    rng = ctx.rng
+    fixed = [None, b"out", b"un pack", b"a\\b", b"q\"r", b"t\tu", None, b"x/y z", b"out/", b"./o", b"a/../b", b"x//y", b"ABS", b"-x", b"r\r"]
+    out = []
+    for i in range(count):
+        if i < len(fixed):
+            out.append(fixed[i]); continue
+        comps = [rng.choice(names)[:40] for _ in range(rng.randint(1, 3))]
+        r = rng.choice([b"", b"./", b"a/../"]) + rng.choice([b"/", b"//"]).join(comps) + rng.choice([b"", b"", b"/"])
+        out.append(r if len(r) < 200 else b"long")
+    return out
+
+
+def long_trees(ctx):
+    """names of 255 bytes, a listing line longer than the 128 KiB buffer of the file stream, a line that needs quotes
+    and is longer than that"""
+    rng = ctx.rng
+    root = (0, "dir", 0o755, 0, 0, 0, b"", b"")
+    n255 = bytes(rng.choice(b"abcxyz") for _ in range(254)) + b" "
+    m255 = b"\"" + bytes(rng.choice(b"abc\\") for _ in range(254))
+    # children in the order of the image (sorted by name: '"' < 'a')
+    t1 = [root, (1, "dir", 0o755, 0, 0, 0, b"", m255), (2, "dir", 0o700, 1, 1, 0, b"", n255), (3, "slink", 0o777, 0, 0, 0, m255 * 8, m255),
+          (3, "file", 0o644, 0, 0, 0, b"", n255), (1, "file", 0o600, 0, 0, 0, b"", n255)]
+    t2 = [root, (1, "slink", 0o777, 0, 0, 0, b"y" * (131072 + rng.randint(0, 3000)), b"big"), (1, "file", 0o644, 0, 0, 0, b"", b"f"),
+          (1, "slink", 0o777, 0, 0, 0, b"a \"b\" \\" * 20000, b"quoted big")]
+    return [t1, t2]
 
 
 def check_tools(ctx, pair, stats):
@@ -703,20 +1088,18 @@ def check_tools(ctx, pair, stats):
     wd.mkdir(exist_ok=True)
     strings, _ = special_strings(ctx, 2)
     names = [s for s in strings if valid_name(s)]
-    ntrees = 10 if ctx.quick() else 300
+    ntrees = 24 if ctx.quick() else 300
     trees = gen_trees(ctx, ntrees, maxnodes=14 if ctx.quick() else 30, names=names, need_file=True)
-    roots = [None, b"out", b"un pack", b"a\\b", b"q\"r", b"t\tu", None, b"x/y z"]
-    res = {"ok": 0, "skip": 0, "fail": 0}
-    ops_m, runs = [], []
+    roots = gen_roots(ctx, names, ntrees)
     jobs = []
     # the D13 witnesses (corpus) one by one, each below a root with default attributes so that nothing else fails first
     cdir = vlib.CORPUS / "C16"
     nwit = 0
     if cdir.exists():
         for p in sorted(cdir.glob("*.cases.json")):
-            for d in json.loads(p.read_text()):
-                c = Case.from_dict(d)
-                if not c.comps or not all(valid_name(x) for x in c.comps):
+            for dct in json.loads(p.read_text()):
+                c = Case.from_dict(dct)
+                if not c.comps or not all(valid_name(x) for x in c.comps) or b"\n" in c.target or (c.root is not None and b"\n" in c.root):
                     continue
                 t = [(0, "dir", 0o755, 0, 0, 0, b"", b"")]
                 for depth, nm in enumerate(c.comps[:-1]):
@@ -726,63 +1109,86 @@ def check_tools(ctx, pair, stats):
                     t.append((1, "file", 0o644, 0, 0, 0, b"", b"~file"))     # sorts after every generated name's first byte ≤ '~'
                     t = [t[0]] + sorted_preorder(t[1:])
                 jobs.append((t, c.root)); nwit += 1
+    need(nwit >= 10, "only %d corpus witnesses reached the tool level" % nwit)
+    for t in long_trees(ctx):
+        jobs.append((t, None))
     for i, t in enumerate(trees):
-        jobs.append(([tuple(x) for x in t], roots[i % len(roots)]))
+        jobs.append(([tuple(x) for x in t], roots[i]))
     prepared = []
     for i, (t, root) in enumerate(jobs):
         files = {}
         for comps, nd in tree_nodes(t):
             if nd[1] == "file":
                 files[b"/".join(comps)] = bytes(ctx.rng.randint(0, 255) for _ in range(ctx.rng.choice([0, 1, 17, 300, 5000])))
+        if root == b"ABS":
+            root = os.fsencode(str(wd / ("abs%d" % i) / "un pack"))
         prepared.append((t, root, files, i))
     from concurrent.futures import ThreadPoolExecutor
-    with ThreadPoolExecutor(max_workers=3) as ex:
+    with ThreadPoolExecutor(max_workers=5) as ex:
         def one(a):
             try:
                 return tool_roundtrip(ctx, (gen, rd), a[0], a[1], a[2], wd, a[3])
             except subprocess.TimeoutExpired as e:
-                # a loaded machine is not a property violation: the run is recorded as skipped
-                return "skip", "timeout (machine load): %s" % str(e)[:120], b""
+                # a loaded machine is not a property violation; the number of such runs is bounded below
+                return "timeout", "timeout (machine load): %s" % str(e)[:120], b""
         results = list(ex.map(one, prepared))
-    for (t, root, files, i), (st, detail, listing) in zip(prepared, results):
+        lfres = list(ex.map(lambda a: tool_lf_case(ctx, (gen, rd), wd, a[0], a[1]), enumerate(LF_TOOL_CASES)))
+    res = {"ok": 0, "fail": 0, "timeout": 0}
+    ops_m, runs = [], []
+    for (t, root, files, i), (st, detail, listing) in szip(prepared, results):
         res[st] += 1
         runs.append((t, root, st, detail, listing))
-        ops_m += [tree_line("new", root, t), tree_line("old", root, t)]
-    model = pair.model(ops_m) if ops_m else []
+        ops_m += [tree_line("cur", root, t), tree_line("fix", root, t), tree_line("old", root, t)]
+    model = pair.model(ops_m)
     caps = {}
+    n_bytes = 0
     for i, (t, root, st, detail, listing) in enumerate(runs):
-        new, old = model[2 * i], model[2 * i + 1]
+        cur, fix, old = model[3 * i: 3 * i + 3]
         got = "ok " + tok(listing)
         rep = {"tree": tree_line("x", root, t), "root": None if root is None else tok(root), "status": st, "detail": detail,
-               "listing": tok(listing)}
-        if st == "skip":
+               "listing": tok(listing)[:20000]}
+        if st == "timeout":
             continue
-        if got not in (new, old):
-            if st != "fail":
+        if st == "ok":
+            n_bytes += 1
+            verdict, regress = printer_verdict(got, cur, fix, old)
+            if verdict is None:
                 capped(ctx, caps, "corr:tool", "corr:tool:" + vlib.sha(rep["tree"])[:16],
-                       "`rdsquashfs -d` output matches neither printer model on a generated image: got %r" % listing[:300], dict(rep, model_new=new, model_old=old),
-                       False)
-                continue
+                       "`rdsquashfs -d` output differs from the printer's model on a generated image%s: got %r" % (regress, listing[:300]),
+                       dict(rep, model_cur=cur[:20000]), False)
         if st == "fail":
-            cause = None
-            if got == old and got != new:
-                for comps, nd in tree_nodes(t):
-                    cause = d13_cause(root, nd[1], comps, nd[6])
-                    if cause:
-                        break
-            key = "D13:" + cause if cause else "tool:" + vlib.sha(rep["tree"])[:16]
-            capped(ctx, caps, key if cause else "tool", key, "tool-level round trip failed (class %s): %s" % (cause or "unexpected", detail[:600]),
-                   dict(rep, cls=cause), True, limit=2 if cause else 5)
-    stats.update({"tool_trees": len(jobs), "tool_witness_trees": nwit, "tool_results": res,
-                  "tool_skipped": [r[3][:160] for r in runs if r[2] == "skip"][:5]})
-    pair.evals += len(jobs)
+            capped(ctx, caps, "tool", "tool:" + vlib.sha(rep["tree"])[:16], "tool-level round trip failed: %s" % detail[:700], rep, True)
+    lfstat = {"refused": 0, "fail": 0}
+    for case, (st, detail) in szip(LF_TOOL_CASES, lfres):
+        lfstat[st] += 1
+        if st == "fail":
+            capped(ctx, caps, "LF:" + case[0], "LF:" + case[0],
+                   "tool level, line feed in the %s (%r%s): %s" % (case[0], case[1], "" if case[2] is None else ", --unpack-root %r" % case[2], detail[:700]),
+                   {"lf_case": [case[0], tok(case[1]), None if case[2] is None else tok(case[2])], "detail": detail}, True, limit=1)
+    # coverage of the clause "together with the files produced by --unpack-path /" must not evaporate
+    done = res["ok"] + res["fail"]
+    need(res["timeout"] <= 2 and done >= len(jobs) - 2, "tool-level round trips lost: %s of %d (timeouts %d)" % (res, len(jobs), res["timeout"]))
+    need(res["ok"] + res["fail"] > 0 and (res["fail"] > 0 or res["ok"] >= len(jobs) - 2), "too few completed tool-level round trips: %s" % res)
+    stats.update({"tool_trees": len(jobs), "tool_witness_trees": nwit, "tool_results": res, "tool_listings_compared_with_model": n_bytes,
+                  "tool_lf_cases": lfstat, "tool_unpack_roots": sorted({repr(r[1]) for r in prepared})[:40],
+                  "tool_timeouts": [r[3][:160] for r in runs if r[2] == "timeout"][:5]})
+    pair.evals += len(jobs) + len(LF_TOOL_CASES)
 
 
 # --------------------------------------------------------------------------------------------------------------
 
 def build_harness(ctx):
     lib = ctx.build_lib()
-    return ctx.cc("h_c16", ["h_c16.c", "h_c16_desc.c"], libs=[str(lib)] + vlib.CODEC_LIBS)
+    try:
+        return ctx.cc("h_c16", ["h_c16.c", "h_c16_desc.c"], libs=[str(lib)] + vlib.CODEC_LIBS)
+    except vlib.CheckFailure as e:
+        # describe.c without a `print_escaped(const char *)`: the direct tie of that function is lost (reported), the
+        # rest of the check — describe_tree as a whole, the parser, the tools — still runs
+        h = ctx.cc("h_c16", ["h_c16.c", "h_c16_desc.c"], flags=["-DC16_NO_PRINT_ESCAPED"], libs=[str(lib)] + vlib.CODEC_LIBS)
+        ctx.violation("corr:print_escaped", "harness/h_c16_desc.c no longer compiles against describe.c's print_escaped(): the model function "
+                      "Sqfs.Quote.printEscaped is no longer compared with it directly: %s" % str(e)[-600:],
+                      {"correspondence": "harness/h_c16_desc.c: c16_capture_escaped", "error": str(e)[-3000:]}, found_input=False)
+        return h
 
 
 def run(ctx):
@@ -792,15 +1198,18 @@ def run(ctx):
                       {"broken": problems, "theorems_file": "lean/Sqfs/Props/C16.lean"}, found_input=False)
     wok, wlog = ctx.lean_build(["Sqfs.Witness.C16"])
     if not wok:
-        ctx.log("witness theorems (Sqfs.Witness.C16) do not build:", wlog[-800:])
+        ctx.violation("proof:C16:witness", "the witness theorems (Sqfs.Witness.C16) no longer build: " + wlog[-800:],
+                      {"broken": ["Sqfs.Witness.C16"], "log": wlog[-3000:]}, found_input=False)
     pair = Pair(ctx, build_harness(ctx))
     stats = {}
     run_simple_ops(ctx, pair, stats)
     cases, nstrings, nexh, nrand, ncorpus_cases = gen_cases(ctx)
+    need(ncorpus_cases >= 20, "corpus/C16/*.cases.json holds only %d cases" % ncorpus_cases)
     stats["corpus_cases"] = ncorpus_cases
     distinct = check_cases(ctx, pair, cases, stats) or set()
-    trees = gen_trees(ctx, 60 if ctx.quick() else 3000)
-    check_trees(ctx, pair, trees, stats, [None, b"R", b"r s", b"/abs/\"q\"", b"t\\", None])
+    rtrees = gen_trees(ctx, 60 if ctx.quick() else 3000)
+    check_trees(ctx, pair, special_trees(ctx) + rtrees, stats, [None, b"R", b"r s", b"/abs/\"q\"", b"t\\", None, b"u\nv"], (len(rtrees) * 3) // 4)
+    check_fs(ctx, pair, stats)
     check_tools(ctx, pair, stats)
     ctx.cov.update(stats)
     ctx.cov.update({
@@ -809,10 +1218,18 @@ def run(ctx):
         "rule": "unit level: every quoting-relevant byte (space, tab, '\"', '\\\\', '#', CR, VT, FF, ', 0x80, 0xff, …) first/middle/last/alone/"
                 "doubled, all ordered pairs of the six core bytes, every string over {space,tab,'\"','\\\\',CR,'#','a'} up to length %d "
                 "(%d strings) and %d seeded random strings, each as entry name of all 7 node kinds, as symlink target and as --unpack-root; "
-                "numeric boundary values of mode/uid/gid/devno; random trees through describe_tree; split_line on every string over "
-                "{space,tab,'\"','\\\\','a',NUL} up to length 6/8 plus random lines; parse_uint(_oct) on digit strings; structure-aware "
-                "malformed pack files.  non-trivial = distinct describe lines produced by the real printer and decoded by the real parser. "
-                "tool level: generated trees through gensquashfs/rdsquashfs (ASan+UBSan) and back, compared by rdsquashfs -s/-c/-l."
+                "strings with LF as target, --unpack-root (in the property) and name (outside; printer tie only); "
+                "numeric boundary values of mode/uid/gid/devno; random trees, trees with a named root, nameless directories through "
+                "describe_tree; print_escaped alone on every string over {space,tab,'\"','\\\\',CR,LF,'a'} up to length 3/5 plus random; "
+                "split_line on every string over {space,tab,'\"','\\\\','a',NUL} up to length 6/8 plus random lines, also with 8 other "
+                "separator sets; parse_uint(_oct) on digit strings; glibc major/minor/makedev on random 32/64-bit values; structure-aware "
+                "malformed pack files through a memory stream with 1..61-byte windows and through the real file stream, pack files with "
+                "lines across and longer than its 128 KiB buffer.  non-trivial = distinct describe lines produced by the real printer and "
+                "decoded by the real parser.  tool level: generated trees (quoting-relevant names, 255-byte names, > 128 KiB lines, generated "
+                "--unpack-root values with ./, .., //, trailing slash, absolute) through gensquashfs/rdsquashfs (ASan+UBSan) and back, "
+                "compared by rdsquashfs -s/-c/-l; images with LF in a link target built from a host directory.  fstree level: pack files over a small "
+                "name set (implicit directories, redefinition, duplicates, files as directories, device numbers out of range) and the real describe "
+                "output of generated trees (links with arbitrary modes) through the real lib/fstree."
                 % (3 if ctx.quick() else 5, nexh, nrand),
         "exhaustive": False,
         "witness_theorems_build": wok,
@@ -822,10 +1239,17 @@ def run(ctx):
     return ctx.finish(LEVEL, trusted_extra=[
         "C strings are modelled as their bytes before the NUL; split_line's in-place rewrite is modelled as read-original/emit-tokens (dst ≤ src: split_dst_le_src)",
         "modelled, not verified directly: lib/util/src/split_line.c, parse_int.c, get_line.c (LTRIM|SKIP_EMPTY path), bin/gensquashfs/src/fstree_from_file.c "
-        "(handle_line and callbacks up to the arguments of fstree_add_generic; glob lines excluded), bin/rdsquashfs/src/describe.c, "
-        "lib/common/src/dir_tree.c:sqfs_tree_node_get_path; glibc major/minor/makedev, printf %o/%u, isspace/isdigit in the C locale",
-        "what happens after fstree_add_generic (tree → image) and before describe_tree (image → tree) is C01's subject; here it is exercised at tool level only",
-    ], assumptions=["entry names contain no LF (the property's quantifier) and no NUL/'/' (cannot occur in an image)"])
+        "(handle_line and callbacks up to the arguments of fstree_add_generic; glob lines excluded), bin/rdsquashfs/src/describe.c (what it prints "
+        "before a failure is not modelled, only the class of the failure), lib/common/src/dir_tree.c:sqfs_tree_node_get_path; glibc "
+        "major/minor/makedev, printf %o/%u, isspace/isdigit in the C locale",
+        "lib/fstree/src/fstree.c is modelled (Sqfs.QuoteFs) as fstree_from_file.c drives it: ent->flags = 0 (no hard links), names as canonicalize_name "
+        "leaves them; inode numbers, xattr indices and fstree_post_process are not modelled",
+        "what happens after the in-memory tree (tree → image) and before describe_tree (image → tree), `rdsquashfs -u` and the contents of files are "
+        "not modelled (C01/C06); here they are exercised at tool level only",
+    ], assumptions=["entry names contain no LF (the property's quantifier) and no NUL/'/' (cannot occur in an image)",
+                    "the theorems about the printer in /repo also assume no LF in symlink targets and --unpack-root; where that fails the "
+                    "check reports the open defect LF:target / LF:location (fixes/C16-describe-newline.patch); the describe_newline_* theorems "
+                    "about the patched printer assume nothing about LF"])
 
 
 def replay(ctx, path):
@@ -833,24 +1257,48 @@ def replay(ctx, path):
     rp = body.get("replay", {})
     ok, _ = ctx.lean_build(["sqfsmodel"])
     pair = Pair(ctx, build_harness(ctx))
+    if "op" in rp and rp["op"].startswith("fsbuild "):
+        pfs = Pair(ctx, build_fs_harness(ctx))
+        impl, crash = pfs.impl([rp["op"]])
+        model = pair.model([rp["op"]])
+        print("op      :", rp["op"][:2000]); print("impl    :", [x[:3000] for x in impl], crash); print("model   :", model[0][:3000])
+        if "expected" in rp:
+            # the in-memory tree gensquashfs builds from a describe output against the specification recorded with it
+            if "tree" in rp:
+                d = pair.impl([rp["tree"]])[0]
+                print("describe:", [x[:2000] for x in d], "(recorded listing %s)" % ("reproduced" if d and d[0][3:] == rp["op"].split(" ")[-1] else "differs now"))
+                if d and d[0].startswith("ok "):
+                    op2 = " ".join(rp["op"].split(" ")[:-1] + [d[0][3:]])
+                    impl, crash = pfs.impl([op2])
+                    print("impl on the present listing:", [x[:3000] for x in impl], crash)
+            print("expected:", rp["expected"][:3000])
+            return 1 if crash or not impl or impl[0] != rp["expected"] else 0
+        return 1 if crash or not impl or impl[0] != model[0] else 0
     if "comps" in rp:
         c = Case.from_dict(rp)
         impl, crash = pair.impl(["desc x " + c.args()])
-        model = pair.model(["desc new " + c.args(), "desc old " + c.args(), "expect " + c.args()])
+        model = pair.model(["desc cur " + c.args(), "desc fix " + c.args(), "desc old " + c.args(), "expect " + c.args()])
         print("node   :", c.as_dict())
         print("impl   :", impl, "crash:", crash)
-        print("model  : new=%s old=%s" % (model[0], model[1]))
-        print("expect :", model[2])
-        matches = bool(impl) and norm_err(impl[0]) in (norm_err(model[0]), norm_err(model[1]))
-        print("printer matches a model:", matches)
+        print("model  : repo=%s patched=%s" % (model[0], model[1]))
+        print("expect :", model[3])
+        verdict = printer_verdict(impl[0], model[0], model[1], model[2])[0] if impl else None
+        print("printer matches model:", verdict)
         if crash or not impl or not impl[0].startswith("ok "):
-            return 1 if (crash or not matches) else 0
+            return 1 if (crash or verdict is None) else 0
         print("line   : %r" % untok(impl[0][3:]))
         dec, crash2 = pair.impl(["parse 1 0 1 0 " + impl[0][3:]])
         print("decoded:", dec, "crash:", crash2)
-        bad = crash2 or dec[0] != model[2]
+        bad = crash2 or (in_scope(c.comps) and dec[0] != model[3])
         print("round trip", "FAILS" if bad else "holds")
-        return 1 if (bad or not matches) else 0
+        return 1 if (bad or verdict is None) else 0
+    if "lf_case" in rp:
+        which, target, root = rp["lf_case"]
+        gen, rd = ctx.build_tool("gensquashfs"), ctx.build_tool("rdsquashfs")
+        wd = ctx.scratch / "tool"; wd.mkdir(exist_ok=True)
+        st, detail = tool_lf_case(ctx, (gen, rd), wd, 0, (which, untok(target), None if root is None else untok(root)))
+        print("status:", st, detail)
+        return 1 if st == "fail" else 0
     if "tree" in rp and "listing" in rp:
         # tool-level: re-run the whole pipeline on the recorded tree
         parts = rp["tree"].split(" ")
@@ -865,22 +1313,23 @@ def replay(ctx, path):
         wd = ctx.scratch / "tool"; wd.mkdir(exist_ok=True)
         st, detail, listing = tool_roundtrip(ctx, (gen, rd), tree, root, files, wd, 0)
         print("status:", st, detail)
-        print("listing:\n" + listing.decode("latin-1"))
+        print("listing:\n" + listing[:4000].decode("latin-1"))
         return 1 if st == "fail" else 0
     if "tree" in rp:
         impl, crash = pair.impl([rp["tree"]])
-        print("impl:", impl, crash)
+        print("impl:", [x[:2000] for x in impl], crash)
         if crash or not impl[0].startswith("ok "):
             return 1 if crash else 0
         dec, _ = pair.impl(["parse 1 0 1 0 " + impl[0][3:]])
-        print("output:\n" + untok(impl[0][3:]).decode("latin-1"))
-        print("decoded :", dec[0])
-        print("expected:", rp.get("expected"))
+        print("output:\n" + untok(impl[0][3:])[:4000].decode("latin-1"))
+        print("decoded :", dec[0][:2000])
+        print("expected:", str(rp.get("expected"))[:2000])
         return 1 if dec[0] != rp.get("expected") else 0
     if "op" in rp:
         impl, crash = pair.impl([rp["op"]])
-        model = pair.model([rp["op"]])
-        print("op:", rp["op"]); print("impl :", impl, crash); print("model:", model)
-        return 1 if crash or impl != model else 0
+        mops = rp.get("model_ops") or [rp["op"]]
+        model = pair.model(mops)
+        print("op:", rp["op"][:2000]); print("impl :", [x[:2000] for x in impl], crash); print("model:", [x[:2000] for x in model])
+        return 1 if crash or impl[0] not in model else 0
     print("replay file names a broken obligation, no input to replay:", json.dumps(rp)[:500])
     return 1
